@@ -90,3 +90,10 @@ Section MLRecords.
      sits at the very start of a line (or at the end of the block) *)
   Definition TouchesNoLine (m : nat * nat) : Prop := lines_touched block_lines m = 0.
 End MLRecords.
+
+(* a plain submatch of a block: non-empty, inside the block, no byte of it is the terminator byte, and under
+   --crlf it does not begin with a CR (a lone CR before the LF is part of the terminator there) *)
+Definition plain_submatch (env : senv) (block : bytes) (x : nat * nat) : Prop :=
+  fst x < snd x /\ snd x <= length block /\
+  (forall p, fst x <= p < snd x -> nth_error block p <> Some (lt_byte (e_lt env))) /\
+  (e_lt env = LTCrlf -> nth_error block (fst x) <> Some 13%N).
